@@ -123,7 +123,15 @@ class LogDeque(collections.deque):
     rec = None
     client = None
 
+    def __init__(self, *a):
+        super().__init__(*a)
+        self.known = []
+
     def append(self, pkt):
+        if pkt.get("pos", 0) != 0 or any(pkt is q for q in self.known):
+            super().append(pkt)         # not a new packet (an implementation that re-queues at the right)
+            return
+        self.known.append(pkt)
         c = self.client
         in_cb = not c._in_callback_mutex.acquire(False)
         if not in_cb:
@@ -134,6 +142,7 @@ class LogDeque(collections.deque):
         super().append(pkt)
 
     def clear(self):
+        self.known = []
         self.rec.add("clear")
         super().clear()
 
@@ -943,7 +952,15 @@ def run_many(pool, cases_iter, out, tag, batch):
         for j in jobs:
             _merge(out, _work(j))
     else:
-        for part in pool.imap(_work, jobs):
+        it = pool.imap(_work, jobs)
+        while True:
+            try:
+                part = it.next(timeout=900)     # a worker that died or spins must not hang the check
+            except StopIteration:
+                break
+            except multiprocessing.TimeoutError:
+                raise RuntimeError(f"C06 harness: a worker did not finish a batch of '{tag}' cases within 900 s "
+                                   "(the implementation does not terminate on some input, or the worker was killed)")
             _merge(out, part)
 
 
@@ -985,7 +1002,7 @@ def run(ctx, out):
         out.notes.append(f"random: {n_raw} raw + {n_ws} websocket cases in {time.time() - t1:.1f}s ({WORKERS} worker processes)")
     finally:
         if pool is not None:
-            pool.close()
+            pool.terminate()
             pool.join()
     # samples for the evidence
     smp = gen_random(rng, "ws", nops=4)
